@@ -17,11 +17,11 @@ ENV = dict(os.environ, CARGO_NET_OFFLINE='true', CARGO_TARGET_DIR=TARGET)
 FORBIDDEN = re.compile(r'\b(Admitted|admit|Axiom|Axioms|Parameter|Parameters|Conjecture|Conjectures|'
                        r'Hypothesis|Variable|Unset\s+Guard|bypass_check|Admit\s+Obligations|'
                        r'type-in-type|impredicative-set|Unset\s+Universe|Unset\s+Positivity)\b')
-# every property theorem is closed under the global context, except C15_gate_ieee (the gate's comparison against Flocq's
-# IEEE-754 formalisation), which rests on the standard library's axioms of the real numbers and classical logic:
+# every property theorem is closed under the global context, except C15_gate_ieee and C18_f64_ieee (the gate's comparison and
+# the PRNG's f64 against Flocq's IEEE-754 formalisation), which rest on the standard library's axioms of the real numbers and classical logic:
 ALLOWED_AXIOMS = {'ClassicalDedekindReals.sig_not_dec', 'ClassicalDedekindReals.sig_forall_dec',
                   'FunctionalExtensionality.functional_extensionality_dep', 'Classical_Prop.classic'}
-AXIOM_USERS = {'C15': {'C15_gate_ieee'}}     # which property files may show them at all
+AXIOM_USERS = {'C15': {'C15_gate_ieee'}, 'C18': {'C18_f64_ieee'}}     # which property files may show them at all
 
 
 class Broken(Exception):
